@@ -173,6 +173,13 @@ impl Store {
             }
         }
 
+        // Remove the backup of an earlier rebuild. A non-empty lmdb.bak cannot be
+        // replaced by rename, and failing there (after event.map was already moved)
+        // would leave the store without its event map.
+        if indexes_bak_path.exists() {
+            fs::remove_dir_all(&indexes_bak_path)?;
+        }
+
         // Backup existing data (moving out of the way)
         fs::rename(&events_path, &events_bak_path)?;
         fs::rename(&indexes_path, &indexes_bak_path)?;
@@ -249,6 +256,18 @@ impl Store {
         new_txn.commit()?;
 
         new_store.sync()?;
+
+        // Close the old (backup) environment. An environment that is merely dropped stays
+        // open and registered under its path, and a later rebuild in this process would be
+        // handed that stale environment instead of the new backup.
+        drop(old_txn);
+        let Store {
+            indexes: old_indexes,
+            events: old_events,
+            ..
+        } = old_store;
+        old_indexes.close()?;
+        drop(old_events);
 
         if need_chown {
             std::os::unix::fs::chown(&events_path, Some(file_uid), None)?;
